@@ -14,6 +14,7 @@ CONSTANTS
  InitChan <- ChanA
  InitFifo = FALSE
  GenDepth = 60
+ LateParty = 99
 INVARIANTS GenPrint
 PROPERTIES DeliveryStepP 
 CHECK_DEADLOCK FALSE
